@@ -12,6 +12,7 @@ from harness.common import Ck
 from translate import c04_formulas as tr
 from translate import c04_inverse as tri
 from translate import c04_rounded as trr
+from translate import c04_inplace as trp
 
 MANIFEST = dict(
     technique='Rocq proof over R (ring/field/nsatz/nra) on formulas, a dispatch table and a Gauss-Jordan row-operation '
@@ -68,6 +69,7 @@ DISP_IMPORTS = ['Coq.Lists.List', 'Coq.Bool.Bool', 'SV.Rot.RotDispatch', 'SV.Gen
 REIFY_IMPORTS = ['Coq.Lists.List', 'Coq.Bool.Bool', 'SV.Rot.RotReify', 'SV.Gen.RotReified_gen']
 GJ_IMPORTS = ['Coq.Lists.List', 'Coq.Bool.Bool', 'SV.Rot.RotGJ', 'SV.Gen.RotInverse_gen']
 GJT_IMPORTS = ['Coq.Lists.List', 'Coq.Bool.Bool', 'Coq.QArith.QArith', 'SV.Rot.RotGJ', 'SV.Rot.RotGJTotal', 'SV.Gen.RotInverse_gen']
+INPLACE_IMPORTS = ['Coq.Lists.List', 'Coq.Bool.Bool', 'SV.Rot.RotInplace', 'SV.Gen.RotInplace_gen']
 ROUND_IMPORTS = ['Coq.Lists.List', 'Coq.Bool.Bool', 'Coq.QArith.QArith', 'SV.Rot.RotRound', 'SV.Gen.RotRounded_gen']
 TOL = 1e-9
 GIMBAL = 0.001
@@ -1074,6 +1076,29 @@ def theorems_with_axioms(ck: Ck, props_file: str = 'Props/C04.v') -> None:
                   ('' if used <= allowed else ' -- UNEXPECTED: ' + ', '.join(sorted(used - allowed))))
 
 
+def corr_inplace_census(ck: Ck) -> None:
+    """The census of in-place methods read from the source (class bodies + expanded exec() templates) against the running
+    classes: per class the same set of in-place names in `vars(cls)`, and every name resolves through the MRO as predicted."""
+    import srctools.math as sm
+    A = trp.analyse()
+    bad: list[str] = []
+    for c, names in A['runtime'].items():
+        real = sorted(n for n in vars(getattr(sm, c)) if n in trp.INPLACE_NAMES and callable(vars(getattr(sm, c))[n]))
+        ck.count('inplace_census_classes')
+        if real != names:
+            bad.append(f'{c}: running class defines {real}, census read {names}')
+    for c in ('Vec', 'FrozenVec', 'Angle', 'FrozenAngle', 'Matrix', 'FrozenMatrix'):
+        has = sorted(n for n in trp.INPLACE_NAMES if getattr(getattr(sm, c), n, None) is not None)
+        pred = sorted({r['name'] for r in A['rows'] if c in r['reached_from']})
+        if has != pred:
+            bad.append(f'{c}: in-place methods reachable at run time {has}, census predicts {pred}')
+    ck.obligation('correspondence:inplace-census', not bad,
+                  f'in-place operator methods of the nine operand classes, source census vs vars() / getattr() of the running '
+                  f'classes: {"; ".join(bad) if bad else "equal (" + str(len(A["rows"])) + " methods)"}')
+    if bad:
+        ck.tie_broken.append('correspondence in-place census (source vs running classes)')
+
+
 def corr_rounding(ck: Ck) -> None:
     """The rounding model of Rot/RotRound.v against CPython floats: every tree of _vec_rot / _mat_mul evaluated with exact
     rationals and a correctly rounded conversion to binary64 after each + - * (= fe_fl rnd64) must give the bits the float
@@ -1212,10 +1237,13 @@ def run(ck: Ck) -> None:
     ok_i = ck.translate('RotInverse_gen', tri.translate_inverse)
     ok_r = ok_f and ck.translate('RotReified_gen', tr.translate_reified)
     ok_rr = ok_f and ck.translate('RotRounded_gen', trr.translate_rounded)
+    ok_ip = ck.translate('RotInplace_gen', trp.translate_inplace)
     A = tr.analyse() if (ok_f and ok_d) else None
     built = False
     # 1. models and generated objects (definitions only: these compile whatever the source computes)
-    models = ck.build(['Rot/RotGJ.vo', 'Rot/RotGJTotal.vo', 'Rot/RotGJFloat.vo', 'Rot/RotDispatch.vo', 'Rot/RotReify.vo', 'Rot/RotRound.vo']
+    models = ck.build(['Rot/RotGJ.vo', 'Rot/RotGJTotal.vo', 'Rot/RotGJFloat.vo', 'Rot/RotDispatch.vo', 'Rot/RotReify.vo', 'Rot/RotRound.vo',
+                       'Rot/RotInplace.vo']
+                      + (['Gen/RotInplace_gen.vo'] if ok_ip else [])
                       + (['Gen/RotFormulas_gen.vo', 'Gen/RotDispatch_gen.vo'] if A is not None else [])
                       + (['Gen/RotReified_gen.vo'] if ok_r else [])
                       + (['Gen/RotRounded_gen.vo'] if ok_rr else [])
@@ -1244,6 +1272,18 @@ def run(ck: Ck) -> None:
         evals.append(('dispatch_rows_rejected', 'failing dispatch_table'))
         ck.extra['dispatch_table_rows'] = len(A['rows'])
         ck.extra['mat_mul_alias_safe'] = A['F']['mat_mul_alias_safe']
+    if ok_ip and models:
+        # the census of ALL in-place operator methods (also the exec()-template ones): a mutable class's in-place method returns
+        # the receiver after storing into it on every path that returns a value; no frozen class has or inherits one
+        group(INPLACE_IMPORTS, {
+            'inplace_methods_return_the_receiver_after_storing_into_it': 'inplace_paths_return_self inplace_census',
+            'inplace_methods_update_the_receiver_on_some_path': 'inplace_methods_store inplace_census',
+            'inplace_methods_exist_on_mutable_classes_only': 'inplace_only_on_mutable inplace_census',
+            'inplace_census_ok': 'census_ok inplace_census',
+        })
+        ck.extra['inplace_census'] = [f'{r["cls"]}.{r["name"]} ({r["origin"]}): ' + ', '.join(
+            p['kind'] + (f'({p["stores"]})' if p['kind'] == 'PSelf' else '') + (f' [{p["why"]}]' if p['why'] else '') for p in r['paths'])
+            for r in trp.analyse()['rows']]
     if ok_r and models:
         group(REIFY_IMPORTS, {
             'to_angle_guard_operator_is_gt': 'guard_operator_ok ta_guard_cfg',
@@ -1313,6 +1353,8 @@ def run(ck: Ck) -> None:
         corr_dispatch(ck, A['F'], A['rows'])
     if ok_i and models:
         corr_inverse(ck)
+    if ok_ip:
+        corr_inplace_census(ck)
     if ok_rr:
         corr_rounding(ck)
     found: dict[str, tuple[str, dict]] = {}
@@ -1331,6 +1373,9 @@ def run(ck: Ck) -> None:
         ck.explain('instance:to_angle_')
     if any(k.startswith('value-mismatch:Matrix:same-object') for k in keys):
         ck.explain('instance:mat_mul_alias_')
+    if any(k.startswith(('not-in-place', 'inplace-')) for k in keys):
+        ck.explain('instance:inplace_')
+        ck.explain('translate:RotInplace_gen')
     if any(k.startswith('inverse-') for k in keys):
         ck.explain('instance:inverse_')
         # the translator could not read inverse() (fail closed) AND the search exhibits a concrete wrong inverse
